@@ -367,9 +367,9 @@ def _own_nodes(fn):
             stack.append(c)
 
 
-def _helper_info(fn):
+def _helper_info(fn, closure=False):
     """None if fn cannot be inlined, else dict(params, body, tail_only)."""
-    if not fn.name.startswith("_") or fn.name.startswith("__"):
+    if fn.name.startswith("__") or (not closure and not fn.name.startswith("_")):
         return None
     decs = [ast.unparse(d) for d in fn.decorator_list]
     if any(d != "staticmethod" for d in decs):
@@ -485,9 +485,31 @@ def _inline_helpers(tree, known=frozenset()):
         return inf, params
 
     counter = [0]
+    scope = {"closures": {}, "qual": ""}
+
+    def closure_info(call):
+        f = call.func
+        if not (isinstance(f, ast.Name) and f.id in scope["closures"]):
+            return None
+        fn = scope["closures"][f.id]
+        qn = f"{scope['qual']}.{f.id}"
+        if qn in known or call.keywords:
+            return None
+        key = ("closure", id(fn))
+        if key not in infos:
+            infos[key] = _helper_info(fn, closure=True)
+            closure_defs[key] = fn
+        inf = infos[key]
+        if inf is None or inf["self"]:
+            return None
+        params = inf["params"]
+        if len(call.args) != len(params) or not all(_pure_arg(a) for a in call.args):
+            return None
+        return inf, params
+    closure_defs = {}
 
     def expand(call, cls, ctx_kind, target_stmt):
-        r = info_for(call, cls)
+        r = closure_info(call) or info_for(call, cls)
         if r is None:
             return None
         inf, params = r
@@ -495,6 +517,23 @@ def _inline_helpers(tree, known=frozenset()):
             return None
         counter[0] += 1
         names = {x: f"{inf['name'].lstrip('_')}__{x}" for x in inf["locals"]}
+        direct = False
+        if ctx_kind == "assign" and inf["body"] and isinstance(inf["body"][-1], ast.Return) \
+                and len(target_stmt.targets) == 1:
+            # `a, b = h(x)` with `return p, q` (locals of h): h's locals p, q ARE a, b
+            tg, rv = target_stmt.targets[0], inf["body"][-1].value
+            tn = [tg] if isinstance(tg, ast.Name) else (list(tg.elts) if isinstance(tg, ast.Tuple) else [])
+            rn = [rv] if isinstance(rv, ast.Name) else (list(rv.elts) if isinstance(rv, ast.Tuple) else [])
+            if tn and len(tn) == len(rn) and all(isinstance(x, ast.Name) for x in tn + rn) \
+                    and all(x.id in inf["locals"] for x in rn) \
+                    and len({x.id for x in rn}) == len(rn) and len({x.id for x in tn}) == len(tn):
+                tnames = {x.id for x in tn}
+                others = set(inf["locals"]) - {x.id for x in rn}
+                argnames = {n_.id for a_ in call.args for n_ in ast.walk(a_) if isinstance(n_, ast.Name)}
+                if not (tnames & others) and not (tnames & argnames):
+                    for r_, t_ in zip(rn, tn):
+                        names[r_.id] = t_.id
+                    direct = True
         subst = dict(zip(params, call.args))
         body = [_Ren(names, subst).visit(copy.deepcopy(st)) for st in inf["body"]]
         if ctx_kind == "return":
@@ -507,6 +546,8 @@ def _inline_helpers(tree, known=frozenset()):
                 body.append(ast.Expr(value=last.value))
             return body or [ast.Pass()]
         # assign
+        if direct:
+            return body or [ast.Pass()]
         val = last.value if (last is not None and last.value is not None) else ast.Constant(None)
         new = copy.copy(target_stmt)
         new.value = val
@@ -538,20 +579,36 @@ def _inline_helpers(tree, known=frozenset()):
             out.append(st)
         return out
 
-    def walk_defs(body, cls):
+    def walk_defs(body, cls, prefix=""):
         for st in body:
             if isinstance(st, (ast.FunctionDef, ast.AsyncFunctionDef)):
+                q = f"{prefix}{st.name}"
+                saved = dict(scope)
+                scope["closures"] = {n.name: n for n in st.body
+                                     if isinstance(n, ast.FunctionDef)}
+                scope["qual"] = q
                 st.body = block(st.body, cls, 0)
+                # closures folded back everywhere disappear
+                for nm, cfn in list(scope["closures"].items()):
+                    key = ("closure", id(cfn))
+                    if infos.get(key) is None:
+                        continue
+                    refs = sum(1 for n in ast.walk(st) if isinstance(n, ast.Name)
+                               and n.id == nm and not any(n is x for x in ast.walk(cfn)))
+                    if refs == 0 and cfn in st.body:
+                        st.body.remove(cfn)
+                scope.update(saved)
             elif isinstance(st, ast.ClassDef):
-                walk_defs(st.body, st.name if cls is None else cls)
+                walk_defs(st.body, st.name if cls is None else cls, f"{prefix}{st.name}.")
             elif isinstance(st, (ast.If, ast.Try, ast.With, ast.For, ast.While)):
                 for f in ("body", "orelse", "finalbody"):
-                    walk_defs(getattr(st, f, []) or [], cls)
+                    walk_defs(getattr(st, f, []) or [], cls, prefix)
                 for h in getattr(st, "handlers", []) or []:
-                    walk_defs(h.body, cls)
+                    walk_defs(h.body, cls, prefix)
     walk_defs(tree.body, None)
     # a new helper whose every use was folded back is gone from the program
-    used_keys = [k for k, v in infos.items() if v is not None]
+    used_keys = [k for k, v in infos.items() if v is not None
+                 and not (isinstance(k, tuple) and k and k[0] == "closure")]
     for key in used_keys:
         name = key if isinstance(key, str) else key[1]
         fn = modfuncs[key] if isinstance(key, str) else clsfuncs[key]
